@@ -50,6 +50,8 @@ type RecRes struct {
 	// Store, if set, is the store handle that also holds the session (the "all local data in one db.Db" deployment of
 	// examples/db): every external function keeps a note in it under the user-data type and leaves the handle that way
 	Store db.Db
+	// StoreLists: the functions also list their notes (Dump); set by the drivers on filesystem stores only
+	StoreLists bool
 	// OnCall, if set, runs inside every external function with the context the engine passed (application code that
 	// logs with the session id from the context)
 	OnCall func(ctx context.Context, sym string)
@@ -148,6 +150,17 @@ func (r *RecRes) FuncFor(ctx context.Context, sym string) (resource.EntryFunc, e
 		if r.Store != nil {
 			r.Store.SetPrefix(db.DATATYPE_USERDATA)
 			r.Store.Put(ctx, []byte("note_"+sym), []byte(res))
+			if r.StoreLists {
+				// ... and list what they have kept so far (the session's own notes)
+				if d, err := r.Store.Dump(ctx, []byte("note_")); err == nil {
+					for k := 0; k < 1000; k++ {
+						if kk, _ := d.Next(ctx); kk == nil {
+							break
+						}
+					}
+					d.Close()
+				}
+			}
 		}
 		if fr.Err {
 			r.Failures++
